@@ -21,4 +21,103 @@ def C08(tier):
     )
 
 
-PROPS = {"C08": C08}
+
+ARB_BUS = "Bus fully arbitrary: 240 symbolic RAM bytes, input/output regs, MICR, MISR, UCR, USR, UART bytes, timer, arbitrary board (all f32 bit patterns)"
+ARB_RAW = ("RawMachine fully arbitrary under Inv (micro address < 512, stack size set, no level interrupt): R0-R7, IR, "
+           "micro address, pending register/flag write, key flip-flop, wait, ALU latch, bus latch, state, limits, " + ARB_BUS)
+
+
+def C10(tier):
+    hs = [
+        Harness("h_bus::bus_write_frame", domain=ARB_BUS + "; address and byte symbolic; one universally quantified RAM cell"),
+        Harness("h_bus::bus_read_map_and_purity", domain=ARB_BUS + "; address symbolic; all parts compared bitwise before/after"),
+        Harness("h_bus::bus_read_after_write", domain=ARB_BUS + "; write address, read address, byte symbolic"),
+        Harness("h_bus::bus_write_pair_no_alias", domain=ARB_BUS + "; two write addresses and bytes symbolic (all 65 536 ordered pairs at once)"),
+        Harness("h_bus::bus_input_setters_frame", domain=ARB_BUS + "; which setter and byte symbolic"),
+    ]
+    return dict(
+        harnesses=hs,
+        bounds="none: single operations from an arbitrary bus state (loop-free apart from fixed-size comparisons); "
+               "sequences of any length follow by induction over these frame lemmas",
+        assumptions=["value read at 0xF2 is Board::get_fan_period() (its law is C14)"],
+        explanation="One-operation frame lemmas for Bus::write / Bus::read / input setters against a reference address map.",
+    )
+
+
+def C14(tier):
+    dom = "board arbitrary under the representation invariant binv (voltages in [0,5], DAC = byte/100, comparator bits consistent, fan rpm consistent); "
+    hs = [
+        Harness("h_board::board_new_satisfies_invariant", domain="Board::new()"),
+        Harness("h_board::board_analog_input1", domain=dom + "applied voltage: all 2^32 f32 bit patterns"),
+        Harness("h_board::board_analog_input2_and_temp", domain=dom + "temp or I2 setter, applied voltage: all 2^32 f32 bit patterns"),
+        Harness("h_board::board_dac_writes", domain=dom + "port 1 or 2, byte symbolic"),
+        Harness("h_board::board_jumpers_and_input_port", domain=dom + "J1/J2/DI1, level/byte symbolic"),
+        Harness("h_board::board_uio_pins", domain=dom + "pin 1..3, level symbolic, direction symbolic"),
+        Harness("h_board::board_control_writes_via_bus", domain=dom + "write to 0xF2/0xF3 through Bus::write, byte symbolic"),
+        Harness("h_board::board_fan_period_law", key="board.fan-period", domain=dom + "read of 0xF2"),
+        Harness("h_board::board_status_reads", domain=dom + "reads of F0/F1/F3"),
+    ]
+    return dict(
+        harnesses=hs,
+        bounds="none: every operation from every binv state; interleavings of any length by induction (binv is proved "
+               "for Board::new() and preserved by each operation)",
+        assumptions=["fan period compared with 255 - byte within +-1 (two float->int truncations)",
+                     "UOR writes (0xF2, 00xxxxxx) set the three UIO status bits regardless of direction (observed, not demanded by the property: only the frame is asserted)",
+                     "resets are outside C14's operation list (C07)"],
+        explanation="Board setters and port writes against a reference model incl. the edge-interrupt rule.",
+    )
+
+
+def C07(tier):
+    arb = "Machine fully arbitrary (" + ARB_RAW + ", step mode)"
+    hs = [
+        Harness("h_reset::reset_cpu", key="reset.cpu", domain=arb),
+        Harness("h_reset::reset_master", key="reset.master", domain=arb),
+        Harness("h_reset::load_image_le4", key="load", domain=arb + "; program image symbolic, length 0..4, limits symbolic", bounds="image <= 4 bytes, unwind 10"),
+        Harness("h_reset::load_image_le8", key="load", tier="thorough", timeout=1500, domain=arb + "; image length 0..8", bounds="image <= 8 bytes"),
+        Harness("h_reset::load_image_le16", key="load", tier="thorough", timeout=2400, domain=arb + "; image length 0..16", bounds="image <= 16 bytes"),
+    ]
+    return dict(
+        harnesses=hs,
+        bounds="resets: none. load: image length <= 4 (quick) / 16 (thorough) bytes in one line; longer images and multi-line programs outside",
+        assumptions=["cycle-for-cycle equality after load follows from full hidden-state equality with a new machine plus determinism "
+                     "of trigger_clock_edge (a &mut RawMachine method: it cannot read the step mode or anything outside the state compared)",
+                     "MISR/USR/UART receive byte are not reset by anything and not compared (not readable by a RAM/FC-FF program)"],
+        explanation="Field-by-field postconditions of cpu_reset / master_reset / load from an arbitrary machine.",
+    )
+
+
+def C05(tier):
+    hs = [
+        Harness("h_edge::edge_commit_and_supervision", key="stop-overrides-error",
+                residual="h_edge::edge_commit_and_supervision_residual", timeout=900,
+                domain=ARB_RAW + "; Running, no wait pending; 5 stack sizes x Size(n)/Auto symbolic"),
+        Harness("h_edge::running_implies_legal_sp_pc_is_inductive", key="stop-overrides-error", timeout=900,
+                domain=ARB_RAW + " with the invariant assumed; operation in {edge, continue, cpu reset, key interrupt} symbolic"),
+        Harness("h_edge::halted_edge_is_identity", key="halt.frozen", domain=ARB_RAW + "; state != Running"),
+        Harness("h_edge::halt_exits", key="halt.exits", domain=ARB_RAW + "; operation symbolic"),
+    ]
+    return dict(
+        harnesses=hs,
+        bounds="none: one clock edge / one call from every state satisfying Inv; all runs by induction",
+        assumptions=["Inv: stack size != NotSet (Machine::load never stores NotSet: C07 load lemma)",
+                     "limits are not changed while a program runs (set_stacksize/set_programsize/registers_mut are raw API outside the property)"],
+        explanation="Supervision rule, forbidden-band formula, absorbing halt states as one-edge lemmas.",
+    )
+
+
+def C13(tier):
+    hs = [
+        Harness("h_edge::edge_never_panics_and_keeps_inv", key="panic.edge", timeout=900, domain=ARB_RAW),
+        Harness("h_panic::stimuli_never_panic", key="panic.stimuli", timeout=900, domain=ARB_RAW + "; stimulus kind and arguments symbolic (f32 arguments: all bit patterns)"),
+        Harness("h_panic::bus_calls_never_panic", key="panic.bus", domain=ARB_BUS + "; address, byte symbolic"),
+    ]
+    return dict(
+        harnesses=hs,
+        bounds="none: each public mutator once from every Inv state; interleavings of any length by induction (Inv preserved)",
+        assumptions=["Inv: stack size != NotSet (the unreachable!() arm); set through raw_mut() it is outside the property's five stack sizes"],
+        explanation="Kani's default checks (overflow, bounds, unwrap/expect, unreachable) are the assertion.",
+    )
+
+
+PROPS = {"C05": C05, "C07": C07, "C08": C08, "C10": C10, "C13": C13, "C14": C14}
